@@ -4,8 +4,11 @@ C09 -- events reach exactly the subscribed pools, in order, and are not lost.
 Implementation: real EventListenerPool(s), real events.notify/subscribe, real Subprocess +
 dispatchers per listener (props/listener_world.py).  Correspondence against Model/Pool.lean.
 Monitors: an independent listener-side parser of every listener's stdin, the accounting law
-(accepted = delivered-OK + overflow-discarded after a final drain), serial uniqueness, per-pool
-FIFO order of first deliveries, reject isolation, listener isolation.
+(accepted = delivered-OK + overflow-discarded after a final drain), the same law step by step
+(`Run.ledger`: every accepted event is in exactly one place -- buffered / held by one listener /
+answered OK / discarded -- and the pool's queue order: sent and discarded events are the oldest),
+serial uniqueness, poolserial order, per-pool FIFO order of first deliveries, reject isolation,
+listener isolation.
 """
 from props.listener_world import World, hexs, parse_stdin
 
@@ -17,9 +20,9 @@ TRUSTED = [
     "event payloads are ASCII in this check (the len: header of non-ASCII payloads is C11 / finding F2)",
     "the listeners' own Subprocess.transition() (start/stop policy) is outside the Pool model; their process state is set by the harness",
     "overflow discards are observed as error-level entries of the pool's logger (pool name and the last integer in the entry)",
-    "the serial wrap at sys.maxsize is modelled (generated constant) but never reached in a run",
+    "the serial wrap at sys.maxsize is modelled (generated constant) and accounted for exactly by the theorems (serial_unique holds for any two events fewer than 2^63 emissions apart); it is never reached in a run, so the monitors see no wrap",
 ]
-ASSUMPTIONS = ["fewer than sys.maxsize events per daemon lifetime (no serial wrap)",
+ASSUMPTIONS = ["pool names are pairwise distinct (section names of the configuration file) and every listener is its own Subprocess object",
                "a closed anonymous pipe never gets a reader again (EPIPE is sticky)"]
 RULE = ("cases = 1-3 pools with overlapping/disjoint subscriptions (concrete types, abstract supertypes, a type together "
         "with its supertype), 1-3 listeners each, buffer sizes 1-5; op lists of notify / listener READY, OK, FAIL, garbage, "
@@ -510,8 +513,10 @@ def replay(ctx, data):
 TECHNIQUE = ("Lean 4 theorems (invariants by induction over operation lists, finite-table decision over the generated event "
              "class tree) over a model whose guards/constants/class table are regenerated from process.py and events.py; "
              "differential correspondence against the real pools, notify and dispatchers")
-LEVEL_TEXT = ("subscription semantics is decided over the whole generated EventTypes table; buffer bound, overflow rule, "
-              "serial monotonicity and head re-insertion are proved for every state; the model is run against the real "
-              "objects on random multi-pool histories with an accounting monitor")
+LEVEL_TEXT = ("subscription semantics is decided over the whole generated EventTypes table; buffer bound, overflow rule and head "
+              "re-insertion are proved for every state; serial/poolserial numbering (with the wrap new_serial performs), "
+              "conservation (every accepted event is in exactly one of: buffer, one listener, answered OK, discarded), "
+              "gone-stays-gone and acceptance-at-emission are proved for every history by an inductive invariant; the model "
+              "is run against the real objects on random multi-pool histories with step-wise and final accounting monitors")
 LEVEL_NOTE = "trusts Lean's kernel, extract.py, the simulated stdin pipes, the harness' identification of discards from error-level log entries; see DESIGN.md C09"
 DESIGN_REF = "DESIGN.md section 6, C09"
